@@ -1,6 +1,7 @@
 package main
 
 import (
+	"bytes"
 	"fmt"
 	"os"
 	"os/exec"
@@ -181,6 +182,50 @@ func runC19(o *out, thorough bool, r *rng, _ []string) map[string]interface{} {
 		}
 		o.count("cold-process-runs")
 	}
+	// the type field on the wire is Value() whatever else the header holds: messages whose Length field has grown
+	// beyond 16 bits (Add has no limit), every class, methods with each single bit set and clear
+	{
+		big := new(stun.Message)
+		big.WriteHeader()
+		big.Add(0x0013, make([]byte, 40000))
+		big.Add(0x0013, make([]byte, 40000))
+		big.Add(0x0013, make([]byte, 70000))
+		for k := 0; k < 16384; k += 7 {
+			big.Type = stun.MessageType{Method: stun.Method(k / 4), Class: stun.MessageClass(k % 4)}
+			big.WriteHeader()
+			if got := uint16(big.Raw[0])<<8 | uint16(big.Raw[1]); got != table[k] {
+				o.fail("header-type-depends-on-length", "1901 "+fNums(k/4, k%4)+fmt.Sprintf(" (WriteHeader with Length %d wrote type %#x, Value is %#x)", big.Length, got, table[k]))
+				break
+			}
+			big.Encode()
+			if got := uint16(big.Raw[0])<<8 | uint16(big.Raw[1]); got != table[k] {
+				o.fail("header-type-depends-on-length", "1901 "+fNums(k/4, k%4)+fmt.Sprintf(" (Encode with Length %d wrote type %#x, Value is %#x)", big.Length, got, table[k]))
+				break
+			}
+		}
+		o.count("headers-with-huge-length")
+	}
+	// every 16-bit type word, as the first two bytes of a header-only message, through every entry point: the
+	// Message's Type is ReadValue of that word
+	for v := 0; v < 65536; v += 1 + v%3 {
+		hd := header(v, 0, tid0)
+		var want stun.MessageType
+		want.ReadValue(uint16(v))
+		for ei, entry := range []func(mm *stun.Message) error{
+			func(mm *stun.Message) error { return stun.Decode(hd, mm) },
+			func(mm *stun.Message) error { _, e := mm.Write(hd); return e },
+			func(mm *stun.Message) error { _, e := mm.ReadFrom(bytes.NewReader(hd)); return e },
+			func(mm *stun.Message) error { return mm.UnmarshalBinary(hd) },
+		} {
+			mm := &stun.Message{Raw: make([]byte, 0, 32)}
+			if err := entry(mm); err != nil || mm.Type != want {
+				o.fail("entry-point-reads-another-type", fmt.Sprintf("1902 %d (entry point %d: %v, error %v; ReadValue says %v)", v, ei, mm.Type, err, want))
+				v = 65536
+				break
+			}
+		}
+	}
+	o.count("type-words-through-entry-points")
 	// a receiver that is reused (as Decode does with m.Type): ReadValue overwrites it completely
 	var reused stun.MessageType
 	m := new(stun.Message)
